@@ -119,6 +119,7 @@ int SimulateF100L::run(int max_cycles, int step)
 
   printf("Running... Press Ctl-C to break.\n");
 
+  enable_signal_handler();
   stop_running = false;
 
   while (stop_running == false)
